@@ -198,9 +198,9 @@ class RopeModel:
         # first part is an atom: atoms contain no separator characters, so a prefix containing one cannot match
         if any(c in SEPS for c in prefix):
             return False
-        if ps[0].kind == 'name' and prefix in ('no-', '_', '-', '+', '@'):
-            return ex.decide(z3.PrefixOf(z3.StringVal(prefix), ps[0].z))
-        raise Unsupported(f'rope.startswith({prefix!r}) on atom {ps[0]!r}')
+        if ps[0].kind == 'name' and not all(c.isalnum() or c == '_' for c in prefix):
+            return False          # name atoms are [A-Za-z_]\w*
+        return ex.decide(z3.PrefixOf(z3.StringVal(prefix), ps[0].z))
 
     @staticmethod
     def m_endswith(ex, o, suffix):
@@ -295,6 +295,10 @@ class RopeModel:
                     return (len(ps), 0)
                 raise Unsupported('rope slice with a negative bound')
             raise Unsupported(f'rope slice bound {bound!r}')
+        if isinstance(lo, int) and lo > 0 and hi is None and ps and isinstance(ps[0], Atom):
+            d = Atom(f'{ps[0].name}[{lo}:]', 'derived')
+            d.z = z3.SubString(ps[0].z, lo, z3.Length(ps[0].z) - lo)
+            return simplify(Obj('rope', parts=[d] + list(ps[1:])))
         if lo is None and hi == 1 and ps and isinstance(ps[0], Atom):
             return Obj('rope', parts=[Atom(ps[0].name + '[:1]', 'firstchar')])
         (lk, lo_), (hk, ho) = cut(lo, (0, 0)), cut(hi, (len(ps), 0))
